@@ -406,7 +406,20 @@ class World:
             bag, struct, table = self._syn_tables(g)
             lrng = random.Random(self.rng_seed * 31 + len(table))
             low = {p: {op: (lrng.randint(1, 4), lrng.randint(0, 3)) for op in ops} for p, ops in sorted(table.items()) if lrng.random() < 0.5}
-            cov = evidence.make_coverage(gene, Profile("verif"), table, low)   # + observations the quality filter must drop
+            # indel table (as a BAM sample has one): the planted catalogued indels with their support + ONE catalogued indel
+            # seen in a single read (every threshold filter rejects it: a filter that edits the table in place shows)
+            indels, weak = {}, None
+            for (pos, op) in sorted(gene.mutations):
+                if op.startswith("ins") or op.startswith("del"):
+                    n = table.get(pos, {}).get(op, 0)
+                    tot = sum(v for o, v in table.get(pos, {}).items() if not o.startswith("ins"))
+                    if n:
+                        indels[pos, op] = (tot if op.startswith("ins") else max(0, tot - n), n)
+                    elif weak is None and tot:
+                        weak = (pos, op)
+            if weak:
+                indels[weak] = (19, 1)
+            cov = evidence.make_coverage(gene, Profile("verif"), table, low, indels=indels or None)   # + low-quality observations
             cov.sam = types.SimpleNamespace(name="SYN", _fusion_counter=None, phases={}, is_long_read=False)
             cov._region_coverage = {(gi, r): float(sum(gene.cn_configs[c].cn[gi][r] for c in struct))
                                     for gi, gr in enumerate(gene.regions) for r in gr}
